@@ -696,6 +696,13 @@ func (bc *BlockChain) verifyAllSideChainBlocks(chain types.Blocks) (err error) {
 			return err
 		}
 
+		// The body must be the one the header commits to: side blocks are stored under the
+		// header's hash, and two bodies can execute to the same state and receipt roots
+		// (e.g. independent transfers in another order).
+		if hash := types.DeriveSha(b.Transactions()); hash != b.TxHash() {
+			return fmt.Errorf("transaction root hash mismatch: have %x, want %x", hash, b.TxHash())
+		}
+
 		//verify block.
 		// Notice: Here we can't use bc.Validator().ValidateBody(b), because ValidateBody will check if the parent block is has state in canonical chain.
 		// just to process the transactions and then validate the result
@@ -714,7 +721,7 @@ func (bc *BlockChain) verifyAllSideChainBlocks(chain types.Blocks) (err error) {
 		// through the chain reader (staking EndBlock reads the parent header, the EVM reads
 		// block hashes), so this verified block must be retrievable from the database.
 		if !bc.HasBlock(b.Hash(), b.NumberU64()) {
-			rawdb.WriteBlock(bc.db, b)
+			bc.writeBlockAtomic(b)
 		}
 
 		//append parent for next block
